@@ -1449,6 +1449,14 @@ func FamRelayBack[T any](c Codec[T], seed int64) SysRecord {
 	case <-time.After(4 * time.Second):
 		rec.Calls = append(rec.Calls, SysCall{Tag: 820, From: "S1", Method: "RelayedOverFailedLink", Err: "DID-NOT-RETURN", Done: true})
 	}
+	// ... and once more now that link 0 has ended: the handler's call fails at once, which is again only an
+	// application-level error on link 1
+	{
+		rctx, rcancel := context.WithTimeout(ctx, 3*time.Second)
+		v, err := s1rem.Relay(rctx, 830)
+		rcancel()
+		rec.Calls = append(rec.Calls, SysCall{Tag: 830, From: "S1", Method: "RelayedOverFailedLink", Ret: canon(v), Err: errText(err), Done: true})
+	}
 	time.Sleep(50 * time.Millisecond)
 	for k, ch := range []chan error{links[1].ErrA, links[1].ErrB} {
 		select {
